@@ -34,8 +34,8 @@ def _hex(c):
 
 def _frac(v):
   f = Fraction(v)
-  if f.denominator > 100000 or abs(f.numerator) > 10000000:
-    f = f.limit_denominator(1000)
+  if f.denominator > 64:
+    f = f.limit_denominator(64)          # keeps TLC's 32-bit arithmetic safe; the generated grid is quarter percents
   return [f.numerator, f.denominator]
 
 
@@ -151,7 +151,7 @@ def observe(adoc, configs, build):
   D = 1
   for t in times:
     D = lcm(D, t.denominator)
-  if D > MAX_DEN or (times and max(times) > 3000):
+  if D > MAX_DEN or (times and (max(times) + 11) * 1000 * D >= 2 ** 31):
     return {"skip": "time grid too fine for 32-bit TLC arithmetic"}
   rec = {"D": D, "sig": [int(t * D) for t in times], "snaps": [project_isd(isd) for _, isd in seq], "outs": []}
   for cfg in configs:
